@@ -2584,6 +2584,15 @@ int32 tls13WriteClientHello(ssl_t *ssl, sslBuf_t *out,
 	}
     }
 
+    /* Early data goes out under the first PSK of the list: not when that
+       PSK cannot be offered with these cipher suites. */
+    if (ssl->tls13ClientEarlyDataEnabled == PS_TRUE &&
+            ssl->sec.tls13SessionPskList != NULL &&
+            !tls13ClientOffersPsk(ssl, ssl->sec.tls13SessionPskList))
+    {
+        ssl->tls13ClientEarlyDataEnabled = PS_FALSE;
+    }
+
     /* uint8 legacy_compression_method */
     psDynBufAppendTlsVector(&chBuf, 1, (1 << 8) - 2, &compressionMethod, 1);
 
